@@ -434,14 +434,14 @@ class eval_abs(object):
         return ret_value
 
     def eval_op_rotl(self, args, op_size, cast_int):
-        r = args[1]&0x1F
-        r %=op_size
+        # a rotation by the operand size is the identity: reduce the count
+        # modulo op_size (masking to 5 bits first is wrong for 64-bit operands)
+        r = args[1] % op_size
         ret_value = ((args[0]<<r) & mymaxuint[op_size]) | ((args[0] & mymaxuint[op_size]) >> (op_size-r))
         return ret_value
 
     def eval_op_rotr(self, args, op_size, cast_int):
-        r = args[1]&0x1F
-        r %=op_size
+        r = args[1] % op_size
         ret_value = ((args[0] & mymaxuint[op_size])>>r)  | ((args[0] << (op_size-r)) & mymaxuint[op_size])
         return ret_value
 
